@@ -21,6 +21,7 @@ INVALID_ARG_ROWS = [
     ("shape x0",         "ne", {"x0"}, {"n"}, [], "x0 must be a vector"),
     ("shape xl",         "ne", {"x0"}, {"xl"}, [], "lower bounds must have the shape of x0"),
     ("shape xu",         "ne", {"x0"}, {"xu"}, [], "upper bounds must have the shape of x0"),
+    ("rhobeg>1e10",      "lt", 1.0e10, {"rhobeg"}, [], "the initial radius must not exceed the cap of the trust-region radius (row added with fix 5abb9eb, finding F18f)"),
     ("bounds not a pair", "ne", {"bounds"}, 2, [("isnot", "bounds")], "bounds must be (lower, upper) (row added with fix c18e669, finding F07k)"),
 ]
 
